@@ -29,6 +29,10 @@ def obligations(tier):
     obls = []
     scen = dict(c01.SCENARIOS)
     scen.update(c01.EXTRA_SCENARIOS)
+    from harness import c01b  # second catalogue + scenarios that only state shapes (isin, searchsorted)
+
+    scen.update({k: v for k, v in c01b.SCENARIOS.items() if k not in c01b.ROUTE_ONLY})
+    scen.update(c01b.SHAPE_ONLY)
     for name, (fn, vs) in scen.items():
         obls.append(
             Obl(
